@@ -75,7 +75,10 @@ func (l *lexer) Lex(lval *yySymType) int {
 			return lval.yys
 
 		case scanner.Int:
-			v, _ := strconv.ParseInt(text, 10, 64)
+			v, err := strconv.ParseInt(text, 10, 64)
+			if err != nil {
+				return yyLexError(l, err)
+			}
 			lval.yys = INTEGER
 			lval.integer = int(v)
 
